@@ -42,16 +42,16 @@ TIERS = {
         "cyc_per_op": {"create": 250, "send": 120, "collect": 250, "drop": 250,
                        "write": 220, "display": 220, "hashkey": 220, "hashset": 120,
                        "equal": 500, "hashfind": 60},
-        "cyc_timeout_ms": 2500, "deep_timeout_ms": 20000, "deep_big_timeout_ms": 60000,
+        "cyc_timeout_ms": 2500, "deep_small_timeout_ms": 15000, "deep_timeout_ms": 40000, "deep_big_timeout_ms": 60000,
     },
     "thorough": {
         "cfg": {"MAXN": 4, "FULLN": 2, "LEAFS": "{1, 2}", "BRANCH": 2,
                 "FAMSEL": '{"full", "ring", "func1", "func2", "sim", "deep"}',
-                "DEPTHS": "{1000, 100000}", "BIGDEPTHS": "{1000000}"},
+                "DEPTHS": "{1000, 10000, 100000}", "BIGDEPTHS": "{1000000}"},
         "cyc_per_op": {"create": 3000, "send": 800, "collect": 3000, "drop": 3000,
                        "write": 1500, "display": 1500, "hashkey": 1500, "hashset": 800,
                        "equal": 6000, "hashfind": 400},
-        "cyc_timeout_ms": 2500, "deep_timeout_ms": 30000, "deep_big_timeout_ms": 120000,
+        "cyc_timeout_ms": 2500, "deep_small_timeout_ms": 20000, "deep_timeout_ms": 60000, "deep_big_timeout_ms": 120000,
     },
 }
 
@@ -196,12 +196,23 @@ def judge(r, cases, verdicts, stats):
             r.cov["traces_validated_against_impl"] += 1
             if any(g["class"].startswith("err") for g in v.get("got", [])):
                 st["err_value"] += 1      # part 2: "returns an error value" is allowed, but counted
+                msg = next((g.get("msg") or "") for g in v["got"] if g["class"].startswith("err"))
+                stats["error_values"].setdefault(re.sub(r"op=\w+\|", "", c["tag"]), msg[:120])
             if op in ("write", "display") and part == "cyc":
                 text_stat(c, v, stats)
             if len(stats["passing"]) < 400:
                 stats["passing"].append(c)
             continue
         sym = symptom(c, v)
+        if part == "deep" and sym == "wrong" and any(g["class"].startswith("err") for g in v["got"][:v.get("step", 0)]):
+            # part 2: an earlier step (building the value) returned an error VALUE, which the property
+            # allows; what later steps observe on the unbuilt value is vacuous, not wrong
+            st["pass"] += 1
+            st["err_value"] += 1
+            r.cov["traces_validated_against_impl"] += 1
+            msg = next((g.get("msg") or "") for g in v["got"] if g["class"].startswith("err"))
+            stats["error_values"].setdefault(re.sub(r"op=\w+\|", "", c["tag"]), msg[:120])
+            continue
         st[sym] = st.get(sym, 0) + 1
         mc = dict(strip(c), tag=c["tag"] + "|got=" + sym)
         grp = stats["groups"].setdefault(re.sub(r"\|fam=\w+\|n=\d+", "", mc["tag"]), [0, c["id"], v.get("why", "")[:160]])
@@ -276,7 +287,7 @@ def run(tier, seed):
     os.makedirs(work, exist_ok=True)
     T = TIERS[tier]
     r = vlib.Result(PROP, tier, seed)
-    stats = {"cyc": {}, "deep": {}, "passing": [], "groups": {}, "by_finding": {}, "violations": 0,
+    stats = {"cyc": {}, "deep": {}, "passing": [], "groups": {}, "by_finding": {}, "violations": 0, "error_values": {},
              "text": {"printed": 0, "same_as_r7rs_form": 0, "labels_first_layout": 0, "other": 0, "examples": []}}
     only = os.environ.get("C18_ONLY", "")
     if only in ("", "model"):
@@ -303,14 +314,20 @@ def run(tier, seed):
         verdicts = vlib.replay([strip(c) for c in sel], work, jobs=12, timeout_ms=T["cyc_timeout_ms"], name="cyc", binary=BINARY)
         judge(r, sel, verdicts, stats)
     if only in ("", "deep"):
-        small = [c for c in deep if c["meta"]["n"] < 1000000]
+        small = [c for c in deep if c["meta"]["n"] <= 1000]
+        mid = [c for c in deep if 1000 < c["meta"]["n"] < 1000000]
         big = [c for c in deep if c["meta"]["n"] >= 1000000]
-        for name, group, tmo in (("deep", small, T["deep_timeout_ms"]), ("deepbig", big, T["deep_big_timeout_ms"])):
+        for name, group, tmo in (("deep", small, T["deep_small_timeout_ms"]), ("deepmid", mid, T["deep_timeout_ms"]),
+                                 ("deepbig", big, T["deep_big_timeout_ms"])):
             if group:
                 # heavy cases first in every chunk would serialise; shuffle (seeded) to balance the jobs
                 random.Random(seed).shuffle(group)
                 verdicts = vlib.replay([strip(c) for c in group], work, jobs=12, timeout_ms=tmo, name=name, binary=BINARY)
                 judge(r, group, verdicts, stats)
+    if os.environ.get("C18_DEBUG"):
+        with open(os.path.join(work, "groups.json"), "w") as f:
+            json.dump(stats["groups"], f, indent=1)
+    stats["passing"].sort(key=lambda c: (c["meta"]["n"], c["id"]))
     selftest(r, stats, work)
     rnd = random.Random(seed)
     for c in rnd.sample(stats["passing"], min(6, len(stats["passing"]))):
@@ -329,9 +346,6 @@ def run(tier, seed):
     summary = {k: v for k, v in stats.items() if k not in ("passing", "groups")}
     r.notes.append(summary)
     vlib.log(json.dumps(summary))
-    if os.environ.get("C18_DEBUG"):
-        with open(os.path.join(work, "groups.json"), "w") as f:
-            json.dump(stats["groups"], f, indent=1)
     return r.finish()
 
 
@@ -341,17 +355,20 @@ def selftest(r, stats, work):
     """Mutant oracle: a passing case whose spec-computed expectation is deliberately falsified must be
     reported by the replayer and must not be swallowed by a known finding; a case that spins forever
     must be reported as a hang (the termination sensor works)."""
+    def comparable(c):
+        """index of a step whose expectation can be falsified: a boolean value, else an emit"""
+        for want in ("val", "emit"):
+            for i, st in enumerate(c["steps"]):
+                if want == "val" and st.get("val") in ("#true", "#false") and tagval(c["tag"], "same") != "T":
+                    return i
+                if want == "emit" and st.get("emit"):
+                    return i
+        return None
     victim = None
     for c in stats["passing"]:
-        last = c["steps"][-1]
-        if last.get("val") in ("#true", "#false") and c["meta"]["op"] == "equal" and tagval(c["tag"], "same") != "T":
+        if comparable(c) is not None:
             victim = c
             break
-    if victim is None:
-        for c in stats["passing"]:
-            if c["steps"][-1].get("emit"):
-                victim = c
-                break
     if victim is None:
         if stats["passing"]:
             raise vlib.ToolError("self-test: no passing case with a comparable expectation")
@@ -359,17 +376,18 @@ def selftest(r, stats, work):
     m = json.loads(json.dumps(strip(victim)))
     m["id"] = "SELFTEST-1"
     m["fresh"] = True
-    last = m["steps"][-1]
-    if last.get("val") in ("#true", "#false"):
-        last["val"] = "#false" if last["val"] == "#true" else "#true"
+    st = m["steps"][comparable(victim)]
+    if st.get("val") in ("#true", "#false"):
+        st["val"] = "#false" if st["val"] == "#true" else "#true"
     else:
-        last["emit"] = [last["emit"][0] + "x"]
+        st["emit"] = [st["emit"][0] + "x"]
     spin = {"id": "SELFTEST-2", "fresh": True, "tag": "cyc|op=selftest-spin",
             "steps": [{"src": "(let loop ((i 0)) (loop (+ i 1)))", "class": "ok"}]}
-    v1, v2 = vlib.replay([m, spin], work, jobs=1, timeout_ms=1500, name="selftest", binary=BINARY)
+    v1, v2 = vlib.replay([m, spin], work, jobs=1, timeout_ms=max(1500, 4 * stats.get("victim_ms", 0)),
+                         name="selftest", binary=BINARY)
     mc = dict(m, tag=m["tag"] + "|got=" + symptom(m, v1))
-    if v1["pass"] or vlib.match_finding(PROP, mc, v1, r.findings):
-        raise vlib.ToolError(f"self-test: a falsified expectation was not reported ({m['steps'][-1]['src'][:200]})")
+    if v1["pass"] or symptom(m, v1) != "wrong" or vlib.match_finding(PROP, mc, v1, r.findings):
+        raise vlib.ToolError(f"self-test: a falsified expectation was not reported ({st['src'][:200]}: {v1.get('why')})")
     if v2["pass"] or symptom(spin, v2) != "hang":
         raise vlib.ToolError("self-test: a non-terminating case was not reported as a hang")
 
